@@ -49,7 +49,7 @@ Proof. exact (fun w t => @scan_completes w t eq_refl). Qed.
 Print Assumptions C17_failure_scan_completes.
 
 Example C17_failure_hypotheses_met :
-  no_base f13_world /\
+  no_base g1_world /\
   selected (mkworld 1 [OMod (Some (mkfn BRaise []))] []) (Some 0) (Some 3) = Some (mkfn BRaise [], true).
 Proof. split; [split; [intros [|[|o]] fs H; inversion H; discriminate | intros [|[|f]]; discriminate]|reflexivity]. Qed.
 
@@ -91,6 +91,6 @@ Print Assumptions C17_never_both_refuted.
      forall w scanned ls n o f d, let s := run src_cfg w ls (init w scanned) in g_bad s = false ->
        ~ (In (EvCallM o n d) (log s) /\ In (EvCallB f n (Some o)) (log s)) /\ ~ In (EvImm f n) (log s).
      C17_never_both_refuted above is the witness that the hypothesis cannot be dropped (candidate
-     finding F13: reproduced on the real implementation by harness/c17.py, extra_legs).
+     finding C17-G1: reproduced on the real implementation by harness/c17.py, extra_legs).
 
    C17_at_most_once for built-in functions: forall f, at most one EvCallB f / EvImm f event. *)
